@@ -116,7 +116,7 @@ def run(ctx):
     stats = []
     for k in range(POPS[ctx.tier]):
         fam = families[k % len(families)]
-        ws = choicelib.weight_vector(rng, ["int-small", "decimal", "mixed", "two", "decimal", "equal", "mixed", "int"][k % 8])[:8]
+        ws = choicelib.weight_vector(rng, ["int-small", "decimal", "mixed", "two", "subpico", "equal", "googol" if k % 16 == 6 else "subpico" if k % 16 == 14 else "mixed", "int"][k % 8])[:8]
         if k % 8 == 1:
             ws = rng.choice([["0.5", "0.5"], ["0.25", "0.25", "0.5"], ["1.5", "2.5"], ["0.1", "0.2", "0.7"]])
         if k % 8 == 3:
